@@ -32,8 +32,8 @@ ASSUMPTIONS = [
     "labels attached to locations for which the operation declares nothing are ignored",
     "whether an operation is violable at all is only judged for the clear cases (typed/constrained/required inputs vs no inputs or `{}`)",
 ]
-MIN_EVALUATIONS = {"quick": 1200, "thorough": 40000}
-MIN_NONTRIVIAL = {"quick": 600, "thorough": 20000}
+MIN_EVALUATIONS = {"quick": 1200, "thorough": 20000}
+MIN_NONTRIVIAL = {"quick": 600, "thorough": 12000}
 REACH_FLOORS = {"negative_parts_judged": 1000, "positive_parts_judged": 100, "operations": 60, "skip_expected": 3}
 SHARD_TIMEOUT = {"quick": 900, "thorough": 5400}
 
